@@ -6,7 +6,8 @@ namespace NeoModel.Mempool
 
 /-! ### Verify -/
 
-theorem verify_spec {U : Tx → Prop} (hw : WF U) {mp : Pool} (hi : Inv U mp) {t : Tx} (ht : U t) (feer : Feer) :
+theorem verify_spec {U : Tx → Prop} (hw : WF U) {mp : Pool} (hi : Inv U mp) {t : Tx} (ht : U t) (feer : Feer)
+    (hF : FeerOk feer) :
     CacheOnly mp (verify mp t feer).1 t feer ∧ Inv U (verify mp t feer).1 := by
   unfold verify
   cases hck : checkTxConflicts mp t feer with
@@ -17,7 +18,7 @@ theorem verify_spec {U : Tx → Prop} (hw : WF U) {mp : Pool} (hi : Inv U mp) {t
       subst this
       exact ⟨CacheOnly.refl _ _ _, hi⟩
     | ok rm =>
-      obtain ⟨actual, hmp1, hent, hcase, _⟩ := checkTxConflicts_ok hw hi ht feer hck
+      obtain ⟨actual, hmp1, hent, hcase, _⟩ := checkTxConflicts_ok hw hi ht feer hF hck
       simp only
       constructor
       · rw [hmp1]
@@ -29,7 +30,8 @@ theorem verify_spec {U : Tx → Prop} (hw : WF U) {mp : Pool} (hi : Inv U mp) {t
 
 /-! ### RemoveStale -/
 
-theorem tryAddSendersFee_check {L : List Tx} (mp : Pool) (t : Tx) (feer : Feer) (hf : FeesOk L mp.fees) :
+theorem tryAddSendersFee_check {L : List Tx} (mp : Pool) (t : Tx) (feer : Feer) (hF : FeerOk feer)
+    (hf : FeesOk L mp.fees) :
     ((tryAddSendersFee mp t feer true).2 = true → FeesOk (L ++ [t]) (tryAddSendersFee mp t feer true).1.fees) ∧
     ((tryAddSendersFee mp t feer true).2 = false → FeesOk L (tryAddSendersFee mp t feer true).1.fees) ∧
     (tryAddSendersFee mp t feer true).1.txs = mp.txs ∧ (tryAddSendersFee mp t feer true).1.vmap = mp.vmap ∧
@@ -38,7 +40,7 @@ theorem tryAddSendersFee_check {L : List Tx} (mp : Pool) (t : Tx) (feer : Feer) 
     (tryAddSendersFee mp t feer true).1.capacity = mp.capacity ∧
     (tryAddSendersFee mp t feer true).1.feePerByte = mp.feePerByte ∧
     (tryAddSendersFee mp t feer true).1.panicked = mp.panicked := by
-  obtain ⟨hent, hcase⟩ := getPayerFee_entry hf (payerOf t) feer
+  obtain ⟨hent, hcase⟩ := getPayerFee_entry hf (payerOf t) feer hF
   unfold tryAddSendersFee
   simp only [if_true]
   generalize hpf : (getPayerFee (payerOf t) mp.fees feer).1 = pf at *
@@ -67,6 +69,12 @@ theorem tryAddSendersFee_check {L : List Tx} (mp : Pool) (t : Tx) (feer : Feer) 
     refine ⟨fun x => Bool.noConfusion x, fun _ => hF, ?_⟩
     cases b <;> exact ⟨rfl, rfl, rfl, rfl, rfl, rfl, rfl⟩
   · simp only [c1, if_false]
+    have hadd : addW t.fee pf.feeSum = t.fee + pf.feeSum := by
+      apply addW_eq
+      have h' := hent
+      simp only [FeeEntry] at h'
+      have := two_H256; omega
+    rw [hadd]
     by_cases c2 : pf.balance < t.fee + pf.feeSum
     · simp only [c2, if_true]
       refine ⟨fun x => Bool.noConfusion x, fun _ => hF, ?_⟩
@@ -125,7 +133,7 @@ theorem loopInv_drop {U : Tx → Prop} (hw : WF U) {acc rest : List Tx} {itm : T
   · have := orcOk_remove hw h.list h.orc itm hm
     rw [hfl] at this; exact this
 
-theorem staleLoop_spec {U : Tx → Prop} (hw : WF U) (isOK : Tx → Bool) (feer : Feer) (pc : Bool) :
+theorem staleLoop_spec {U : Tx → Prop} (hw : WF U) (isOK : Tx → Bool) (feer : Feer) (hF : FeerOk feer) (pc : Bool) :
     ∀ (rest : List Tx) (mp : Pool) (acc : List Tx), LoopInv U acc rest mp →
       LoopInv U (staleLoop isOK feer pc rest mp acc).2 [] (staleLoop isOK feer pc rest mp acc).1 ∧
       (staleLoop isOK feer pc rest mp acc).2.Sublist (acc ++ rest) ∧
@@ -145,7 +153,7 @@ theorem staleLoop_spec {U : Tx → Prop} (hw : WF U) (isOK : Tx → Bool) (feer 
     simp only [staleLoop]
     by_cases hk : (isOK itm && checkPolicy mp itm pc) = true
     · rw [if_pos hk]
-      obtain ⟨c1, c2, c3, c4, c5, c6, c7, c8, c9⟩ := tryAddSendersFee_check (L := acc) mp itm feer h.fees
+      obtain ⟨c1, c2, c3, c4, c5, c6, c7, c8, c9⟩ := tryAddSendersFee_check (L := acc) mp itm feer hF h.fees
       cases hres : tryAddSendersFee mp itm feer true with
       | mk mp' b =>
         rw [hres] at c1 c2 c3 c4 c5 c6 c7 c8 c9
@@ -184,7 +192,8 @@ theorem staleLoop_spec {U : Tx → Prop} (hw : WF U) (isOK : Tx → Bool) (feer 
       obtain ⟨r1, r2, r3, r4⟩ := ih _ _ hdrop
       exact ⟨r1, r2.trans hsub, r3, r4⟩
 
-theorem inv_removeStale {U : Tx → Prop} (hw : WF U) {mp : Pool} (hi : Inv U mp) (isOK : Tx → Bool) (feer : Feer) :
+theorem inv_removeStale {U : Tx → Prop} (hw : WF U) {mp : Pool} (hi : Inv U mp) (isOK : Tx → Bool) (feer : Feer)
+    (hF : FeerOk feer) :
     Inv U (removeStale mp isOK feer) ∧ (removeStale mp isOK feer).txs.Sublist mp.txs ∧
       (removeStale mp isOK feer).capacity = mp.capacity := by
   unfold removeStale
@@ -206,7 +215,7 @@ theorem inv_removeStale {U : Tx → Prop} (hw : WF U) {mp : Pool} (hi : Inv U mp
     · intro q; simp [FeeEntry, sumFees]
     · show (loadPolicy mp feer).1.panicked = false
       rw [l5]; exact hi.noPanic
-  obtain ⟨r1, r2, r3, r4⟩ := staleLoop_spec hw isOK feer (loadPolicy mp feer).2 (loadPolicy mp feer).1.txs _ [] h0
+  obtain ⟨r1, r2, r3, r4⟩ := staleLoop_spec hw isOK feer hF (loadPolicy mp feer).2 (loadPolicy mp feer).1.txs _ [] h0
   simp only [List.nil_append] at r1 r2
   have r2' := r2.trans (by rw [l1]; exact List.Sublist.refl _ : (loadPolicy mp feer).1.txs.Sublist mp.txs)
   have hc := r3.trans l4
